@@ -76,6 +76,7 @@ func (s *Solver) start() error {
 	s.ufs = map[string]bool{}
 	s.defsAt = []map[int]bool{{}}
 	s.dead = false
+	s.buf.Reset()
 	s.send("(set-option :global-declarations true)")
 	if strings.Contains(s.argv[0], "z3") {
 		s.send(fmt.Sprintf("(set-option :timeout %d)", s.tmo))
@@ -106,6 +107,9 @@ func (s *Solver) Close() {
 }
 
 func (s *Solver) send(line string) {
+	if s.dead {
+		return
+	}
 	s.buf.WriteString(line)
 	s.buf.WriteByte('\n')
 	if s.log != nil {
@@ -138,7 +142,7 @@ func (s *Solver) readLine() (string, error) {
 	select {
 	case r := <-ch:
 		return strings.TrimRight(r.l, "\r\n"), r.err
-	case <-time.After(time.Duration(s.tmo)*time.Millisecond*3 + 20*time.Second):
+	case <-time.After(time.Duration(s.tmo)*time.Millisecond*3/2 + 5*time.Second):
 		s.dead = true
 		s.cmd.Process.Kill()
 		return "", fmt.Errorf("solver hard timeout")
@@ -377,6 +381,9 @@ func (s *Solver) CheckWith(extra ...*Term) Result {
 		s.Assert(e)
 	}
 	r := s.Check()
+	if s.dead {
+		return Unknown
+	}
 	s.Pop()
 	return r
 }
